@@ -99,12 +99,16 @@ class Raw(object):
         self.const = const      # name of the module constant this value is (fone, fnone, ...)
 
     def fields(self):
+        if self.kind == 'FIN':
+            raise Arith('fields of a finite value of unknown sign')
         if self.kind != 'N':
             return [Int(v) for v in SPECIALS[self.kind]]
         t = self.tag
         return [Int(self.sign), Sym({'man' + t: 1}), Sym({'exp' + t: 1}), Sym({'bc' + t: 1})]
 
     def label(self):
+        if self.kind == 'FIN':
+            return 'FIN'
         if self.kind != 'N':
             return self.kind
         return 'N(%s,%s)' % ('-' if self.sign else '+', self.expc)
@@ -209,6 +213,14 @@ class ClassInterp(object):
         if isinstance(a, Raw) and isinstance(b, Raw):
             if not isinstance(op, (ast.Eq, ast.NotEq)):
                 raise Unsupported('ordering of raw tuples')
+            if 'FIN' in (a.kind, b.kind):
+                other = b if a.kind == 'FIN' else a
+                if other.kind in ('PINF', 'NINF', 'NAN'):
+                    return Int(isinstance(op, ast.NotEq))
+                if hasattr(self, 'choose'):
+                    c = self.choose('finite value == %s' % other.label())
+                    return Int(c if isinstance(op, ast.Eq) else not c)
+                raise Unsupported('equality with a finite value of unknown sign')
             if a.kind == 'N' and b.kind == 'N':
                 if a.const and b.const:
                     eq = a.const == b.const
@@ -323,6 +335,15 @@ class ClassInterp(object):
                 if isinstance(e.op, ast.Or) and t:
                     return last
             return last
+        if isinstance(e, ast.Compare) and len(e.ops) > 1:
+            # a == b == c  is  (a == b) and (b == c)
+            left = e.left
+            for op, right in zip(e.ops, e.comparators):
+                r = self.ev(ast.copy_location(ast.Compare(left=left, ops=[op], comparators=[right]), e), env)
+                if not self.truth(r):
+                    return r
+                left = right
+            return r
         if isinstance(e, ast.Compare) and len(e.ops) == 1:
             a = self.ev(e.left, env)
             op = e.ops[0]
@@ -433,7 +454,8 @@ class ClassInterp(object):
     def run(self, fnode, args, kwargs=None):
         self.depth += 1
         if self.depth > 12:
-            raise Unsupported('recursion too deep')
+            self.depth = 0
+            raise Raised('RecursionError (the interpreted code calls itself more than 12 levels deep on these classes)')
         params = [a.arg for a in fnode.args.args]
         if params and params[0] in ('ctx', 'self'):
             params = params[1:]
@@ -510,6 +532,8 @@ class NeedChoice(Exception):
 
 class KernelInterp(ClassInterp):
     NORMALISERS = ('normalize', 'normalize1')
+
+    summarise_normals = False      # interval analyses: arithmetic on two normals is summarised by signs
 
     def __init__(self, lookup, symclass, choices=()):
         ClassInterp.__init__(self, lookup, symclass)
@@ -661,6 +685,42 @@ class KernelInterp(ClassInterp):
             if isinstance(v, Int):
                 return Int(int(v.v))
             raise Arith('int()')
+        if fn in ('mpf_pos', 'mpf_neg', 'mpf_abs') and self.summarise_normals and e.args:
+            v = self.coerce_raw(self.ev(e.args[0], env))
+            if isinstance(v, Raw) and v.kind == 'FIN':
+                return Raw('FIN')
+        if fn == 'mpf_min_max' and self.summarise_normals:
+            seq = self.ev(e.args[0], env)
+            items = [self.coerce_raw(x) for x in seq.items]
+            if all(isinstance(x, Raw) for x in items):
+                def lab(r):
+                    return r.kind if r.kind != 'N' else ('N-' if r.sign else 'N+')
+                labs = [lab(x) for x in items]
+                if labs[0] == 'NAN':
+                    return Tuple([Raw('NAN'), Raw('NAN')])      # every comparison with nan is False
+                labs = [x for x in labs if x != 'NAN']
+                order_min = ['NINF', 'N-', 'FIN', 'Z', 'N+', 'PINF']
+                order_max = ['PINF', 'N+', 'FIN', 'Z', 'N-', 'NINF']
+
+                def pick(order):
+                    for k in order:
+                        if k in labs:
+                            return {'N-': Raw('N', 1, 'ANY', tag='_m'), 'N+': Raw('N', 0, 'ANY', tag='_m'),
+                                    'FIN': Raw('FIN')}.get(k) or Raw(k, 1 if k == 'NINF' else 0)
+                return Tuple([pick(order_min), pick(order_max)])
+        if fn in ('mpf_add', 'mpf_sub', 'mpf_mul', 'mpf_div') and len(e.args) >= 2 and self.summarise_normals:
+            a0 = self.coerce_raw(self.ev(e.args[0], env))
+            a1 = self.coerce_raw(self.ev(e.args[1], env))
+            if isinstance(a0, Raw) and isinstance(a1, Raw) and a0.kind in ('N', 'FIN') and a1.kind in ('N', 'FIN'):
+                # arithmetic on two finite non-special numbers, at the level of signs
+                if 'FIN' in (a0.kind, a1.kind):
+                    return Raw('FIN')
+                if fn in ('mpf_mul', 'mpf_div'):
+                    return Raw('N', a0.sign ^ a1.sign, 'ANY', tag='_q')
+                s1 = a1.sign ^ (1 if fn == 'mpf_sub' else 0)
+                if a0.sign == s1:
+                    return Raw('N', a0.sign, 'ANY', tag='_q')
+                return Raw('FIN')           # cancellation: any finite value, zero included
         f = self.lookup(fn)
         if f is not None:
             args = [self.coerce_raw(self.ev(a, env)) for a in e.args]
